@@ -11,6 +11,7 @@ import (
 
 	databasev1 "github.com/apache/skywalking-banyandb/api/proto/banyandb/database/v1"
 	modelv1 "github.com/apache/skywalking-banyandb/api/proto/banyandb/model/v1"
+	"github.com/apache/skywalking-banyandb/banyand/internal/verif/sidxsim"
 	"github.com/apache/skywalking-banyandb/banyand/internal/verif/simmeta"
 	"github.com/apache/skywalking-banyandb/banyand/internal/verif/simnode"
 	"github.com/apache/skywalking-banyandb/banyand/internal/verif/wl"
@@ -22,6 +23,7 @@ func TestSim(t *testing.T) {
 	simcore.Main(t, "C09", []simcore.Scenario{
 		{Name: "stream-order", Weight: 3, Run: runStream},
 		{Name: "measure-order", Weight: 2, Run: runMeasure},
+		{Name: "sidx-steps", Weight: 2, Run: sidxsim.Run("ordered-window", true)},
 	})
 }
 
